@@ -33,13 +33,82 @@ class Unit:
         self.known = {}
 
 
+def run_capped(cmd, data, timeout=20, cap=64 << 20, env=None):
+    """like vlib.run, but never holds more than `cap` bytes of stdout: the duplicate-label defect makes emitfunc print
+    for ever, and a captured pipe would eat the machine.  Returns (rc, stdout, stderr); rc -998 = output cap hit."""
+    import threading
+    p = subprocess.Popen(cmd, stdin=subprocess.PIPE, stdout=subprocess.PIPE, stderr=subprocess.PIPE, env=env)
+    err = []
+
+    def feed():
+        try:
+            p.stdin.write(data)
+            p.stdin.close()
+        except OSError:
+            pass
+
+    def drain():
+        n = 0
+        while True:
+            b = p.stderr.read(65536)
+            if not b:
+                break
+            if n < (1 << 20):
+                err.append(b)
+            n += len(b)
+    th = [threading.Thread(target=feed, daemon=True), threading.Thread(target=drain, daemon=True)]
+    for t in th:
+        t.start()
+    timer = threading.Timer(timeout, p.kill)
+    timer.start()
+    t0 = time.time()
+    out, n, capped = [], 0, False
+    try:
+        while True:
+            b = p.stdout.read(1 << 16)
+            if not b:
+                break
+            out.append(b)
+            n += len(b)
+            if n > cap:
+                capped = True
+                p.kill()
+                break
+        p.wait()
+    finally:
+        timer.cancel()
+        try:
+            p.kill()
+        except OSError:
+            pass
+    for t in th:
+        t.join(2)
+    rc = p.returncode
+    if capped:
+        rc = -998
+    elif rc == -9 and time.time() - t0 >= timeout - 0.5:
+        rc = -999
+    return rc, b"".join(out), b"".join(err)
+
+
+def cproc_capped(objdir, src, target, trace=None, timeout=20):
+    e = dict(os.environ)
+    e.pop("CPROC_VERIF_TRACE", None)
+    e.pop("CPROC_VERIF_TOKDUMP", None)
+    if trace:
+        e["CPROC_VERIF_TRACE"] = trace
+    data = src.encode("utf-8", "surrogateescape") if isinstance(src, str) else src
+    rc, out, err = run_capped([os.path.join(objdir, "cproc-qbe"), "-t", target], data, timeout=timeout, env=e)
+    return rc, out.decode("utf-8", "surrogateescape"), err.decode("utf-8", "replace")
+
+
 def emitted_name(ev):
     return (".L%s.%d" % (ev["name"], ev["id"])) if ev["id"] else ev["name"]
 
 
 def compile_unit(builds, u, tracedir):
     plain, hooks = builds
-    u.rc, u.il, u.err = vlib.cproc(plain, u.src, u.target, timeout=20)
+    u.rc, u.il, u.err = cproc_capped(plain, u.src, u.target, timeout=20)
     if u.rc != 0:
         return u
     try:
@@ -52,7 +121,7 @@ def compile_unit(builds, u, tracedir):
         return u
     if hooks and u.mod["data"]:
         tr = os.path.join(tracedir, "t%s.nd" % vlib.sha(u.id)[:16])
-        rc2, il2, _ = vlib.cproc(hooks, u.src, u.target, timeout=20, trace=tr)
+        rc2, il2, _ = cproc_capped(hooks, u.src, u.target, timeout=20, trace=tr)
         if rc2 == 0 and il2 == u.il and os.path.exists(tr):
             seen = {}
             for ln in open(tr, errors="replace"):
@@ -79,8 +148,6 @@ def compile_unit(builds, u, tracedir):
 
 # ----------------------------------------------------------------------------------------------
 # classification of a failed obligation into a finding key (glue: looks at names only)
-INTERNAL = re.compile(r"^(start|body|dead|if_true|if_false|if_join|switch_\w+|while_\w+|do_\w+|for_\w+|logic_\w+|cond_\w+)$")
-
 
 def detail_of(ob, at, u, fname):
     if ob == "JumpsTargetExisting":
@@ -132,6 +199,7 @@ class Judge:
         self.by_text = {}
         self.lines = []
         self.obs = []
+        self.obs_meta = {}
         self.expected = 0
         self.excluded = {"call_unprototyped": 0, "data_big": 0, "dup_text": 0}
 
@@ -157,34 +225,56 @@ class Judge:
         self.units[u.id] = u
         m = c03lib.module_to_tla(u.mod, u.id, u.known)
         self.excluded["data_big"] += sum(1 for d in m["data"] if d["big"])
-        self.lines.append(c03lib.dumps(m))
+        self.lines.append((c03lib.dumps(m), 1 + 2 * len(m["funcs"])))
         self.expected += 1 + 2 * len(m["funcs"])
 
-    def run(self, workers=16, heap="6g", tag="batch"):
+    CHUNK = 8 << 20        # bytes of JSON per TLC run: TLC's value graph is ~50x the text, a full heap makes SerialGC thrash
+
+    def run(self, workers=16, heap="4g", tag="batch", guard=True):
         ctx = self.ctx
         if not self.lines:
             return {}
-        path = ctx.path("qbewf_%s.ndjson" % tag)
-        with open(path, "w") as f:
-            f.write("\n".join(self.lines) + "\n")
-        opath = ctx.path("qbewf_%s_obs.ndjson" % tag)
-        with open(opath, "w") as f:
-            f.write("\n".join(json.dumps(o) for o in self.obs) + "\n")
-        r = ctx.tlc("QbeWF", "MC_QbeWF.cfg", workers=workers, heap=heap, timeout=2400,
-                    env={"QBEWF_MODS": path, "QBEWF_OBS": opath})
-        if not r.ok:
-            raise vlib.MachineryError("QbeWF machine rejected its own invariants (rc=%d):\n%s" % (r.rc, r.out[-4000:]))
-        verdicts = [json.loads(v) for v in r.vcases]
-        nproc = sum(1 for v in verdicts if v["k"] == "proc")
-        if len(verdicts) - nproc != self.expected or nproc != 1:
-            raise vlib.MachineryError("QbeWF: expected %d verdict lines (+1 proc), got %d (+%d)" % (self.expected, len(verdicts) - nproc, nproc))
+        chunks, cur, size = [], [], 0
+        for ln in self.lines:
+            if cur and size + len(ln[0]) > self.CHUNK:
+                chunks.append(cur)
+                cur, size = [], 0
+            cur.append(ln)
+            size += len(ln[0])
+        chunks.append(cur)
+        verdicts = []
+        for ci, chunk in enumerate(chunks):
+            path = ctx.path("qbewf_%s_%d.ndjson" % (tag, ci))
+            with open(path, "w") as f:
+                f.write("\n".join(ln for ln, _ in chunk) + "\n")
+            obs = self.obs[ci::len(chunks)] or [{"id": "(none)", "rc": 1, "errlen": 0, "parses": False, "outlen": 0, "endsnl": False, "fault": "none"}]
+            opath = ctx.path("qbewf_%s_%d_obs.ndjson" % (tag, ci))
+            with open(opath, "w") as f:
+                f.write("\n".join(json.dumps(o) for o in obs) + "\n")
+            r = ctx.tlc("QbeWF", "MC_QbeWF.cfg", workers=workers, heap=heap, timeout=2400, env={"QBEWF_MODS": path, "QBEWF_OBS": opath})
+            if not r.ok:
+                raise vlib.MachineryError("QbeWF machine rejected its own invariants (rc=%d):\n%s" % (r.rc, r.out[-4000:]))
+            vs = [json.loads(v) for v in r.vcases]
+            exp = sum(n for _, n in chunk)
+            nproc = sum(1 for v in vs if v["k"] == "proc")
+            if len(vs) - nproc != exp or nproc != 1:
+                raise vlib.MachineryError("QbeWF chunk %d: expected %d verdict lines (+1 proc), got %d (+%d)" % (ci, exp, len(vs) - nproc, nproc))
+            verdicts += vs
+            os.unlink(path)
+        ctx.cov["qbewf_runs"] = ctx.cov.get("qbewf_runs", 0) + len(chunks)
+        if guard and {v["k"] for v in verdicts} != {"proc", "module", "static", "flow"}:
+            raise vlib.MachineryError("vacuity guard: QbeWF verdict kinds %s" % sorted({v["k"] for v in verdicts}))
+        self.ctx.cov["flow_sweeps_max"] = max([self.ctx.cov.get("flow_sweeps_max", 0)] + [v["n"] for v in verdicts if v["k"] == "flow"])
+        if len(verdicts) - len(chunks) != self.expected:
+            raise vlib.MachineryError("QbeWF: expected %d verdict lines, got %d" % (self.expected, len(verdicts) - len(chunks)))
         failed = {}
         for v in verdicts:
             if v["k"] == "proc":
                 for x in v["failed"]:
                     for oid in x["at"]:
                         o = next(o for o in self.obs if o["id"] == oid)
-                        ctx.violation("proc:%s:%s" % (x["ob"], o["fault"]), "process clause %s violated" % x["ob"], o)
+                        ctx.violation("proc:%s:%s" % (x["ob"], o["fault"]), "process clause %s violated" % x["ob"],
+                                      dict(o, **self.obs_meta.get(oid, {})))
                 continue
             for x in v["failed"]:
                 failed.setdefault(v["m"], []).append((v["f"], x["ob"], x["at"]))
@@ -206,7 +296,7 @@ class Judge:
                 ctx.violation("wf:%s:%s" % (ob, det),
                               "exit 0 with malformed IL: obligation %s fails at %s in function $%s" % (ob, at, fname),
                               {"id": u.id, "kind": u.kind, "target": u.target, "function": fname, "obligation": ob, "at": at,
-                               "source": u.src if len(u.src) < 20000 else u.src[:20000], "meta": u.meta})
+                               "source": u.src, "meta": {k: v for k, v in u.meta.items() if k != "cases"}})
 
 
 # ----------------------------------------------------------------------------------------------
@@ -333,6 +423,11 @@ def emit_model(ctx, builds, judge):
     cases = [json.loads(v) for v in r.vcases]
     if not cases:
         raise vlib.MachineryError("EmitModel produced no behaviours")
+    kinds = {h[0] for c in cases for h in c["hist"]}
+    if kinds != {"inst", "ret", "hlt", "goto", "label", "ifgoto"}:
+        raise vlib.MachineryError("vacuity guard: EmitModel statement actions taken: %s" % sorted(kinds))
+    if not any(c["dev"] == ["DevUndefinedGoto"] for c in cases) or not any(c["dev"] == ["DevDuplicateLabel"] for c in cases):
+        raise vlib.MachineryError("vacuity guard: a deviation never fired in the EmitModel behaviours")
     div = [c for c in cases if "EmitTerminates" in c["failing"]]
     fin = [c for c in cases if "EmitTerminates" not in c["failing"]]
     plain = builds[0]
@@ -414,8 +509,10 @@ def emit_compare(ctx, u, judge):
             continue
         ctx.validated(1)
         c["_func"] = "f%d" % i
-    # QbeWF judges every batch that contains a behaviour the model calls malformed; of the others every 6th in the quick tier
-    u.meta["judged"] = (not ctx.quick) or any(c["failing"] for c in u.meta["cases"]) or (int(u.id.split(":")[1].split("/")[0]) % 6 == 0)
+    # quick: QbeWF judges every batch that contains a behaviour the model calls malformed and every 8th of the others;
+    # thorough (9x more behaviours): every 3rd batch.  The skeleton comparison above is done for all of them.
+    bi = int(u.id.split(":")[1].split("/")[0])
+    u.meta["judged"] = (any(c["failing"] for c in u.meta["cases"]) or bi % 8 == 0) if ctx.quick else (bi % 3 == 0)
     if u.meta["judged"]:
         judge.add(u)
 
@@ -451,6 +548,19 @@ def emit_crosscheck(ctx, units, failed):
 
 # ----------------------------------------------------------------------------------------------
 # process clause: injected write failures
+def fault_cmds(ctx, exe, u, size):
+    """[(fault, argv, arg)]: the output channel cannot take the whole (non-empty) output"""
+    srcp, outp = ctx.path("fault_in.c"), ctx.path("fault_out.qbe")
+    with open(srcp, "wb") as f:
+        f.write(u.src.encode("utf-8", "surrogateescape"))
+    runs = [("devfull", [exe, "-t", u.target, "-o", "/dev/full", srcp], None),
+            ("closed", ["sh", "-c", 'exec "$0" -t "$1" "$2" >&-', exe, u.target, srcp], None)]
+    for b in sorted({0, 1, (size // 512) // 2, max(0, (size - 1) // 512)}):
+        if b * 512 < size:
+            runs.append(("fsize", ["sh", "-c", 'trap "" XFSZ; ulimit -f %d; exec "$0" -t "$1" -o "$2" "$3"' % b, exe, u.target, outp, srcp], b))
+    return runs, srcp, outp
+
+
 def fault_runs(ctx, builds, judge, units):
     exe = os.path.join(builds[0], "cproc-qbe")
     pick = [u for u in units if u.rc == 0 and u.il and len(u.il) > 0]
@@ -459,17 +569,7 @@ def fault_runs(ctx, builds, judge, units):
     n = 0
     for u in sel:
         size = len(u.il.encode("utf-8", "surrogateescape"))
-        srcp = ctx.path("fault_in.c")
-        with open(srcp, "wb") as f:
-            f.write(u.src.encode("utf-8", "surrogateescape"))
-        outp = ctx.path("fault_out.qbe")
-        blocks = sorted({0, 1, (size // 512) // 2, max(0, (size - 1) // 512)})
-        runs = [("devfull", [exe, "-t", u.target, "-o", "/dev/full", srcp], None)]
-        runs.append(("closed", ["sh", "-c", 'exec "$0" -t "$1" "$2" >&-', exe, u.target, srcp], None))
-        for b in blocks:
-            if b * 512 >= size:
-                continue
-            runs.append(("fsize", ["sh", "-c", 'trap "" XFSZ; ulimit -f %d; exec "$0" -t "$1" -o "$2" "$3"' % b, exe, u.target, outp, srcp], b))
+        runs, srcp, outp = fault_cmds(ctx, exe, u, size)
         for fault, cmd, arg in runs:
             try:
                 os.unlink(outp)
@@ -479,15 +579,13 @@ def fault_runs(ctx, builds, judge, units):
             o = {"id": "%s!%s%s" % (u.id, fault, "" if arg is None else ":%d" % arg), "rc": rc, "errlen": 0, "parses": True,
                  "outlen": 0, "endsnl": True, "fault": fault}
             judge.obs.append(o)
+            judge.obs_meta[o["id"]] = {"source": u.src, "target": u.target, "fault_arg": arg, "full_output_bytes": size}
             n += 1
             ctx.count(o["id"], nontrivial=True)
     # control: the same path without a fault must succeed and reproduce the output (the injection is the only difference)
     if sel:
         u = sel[0]
-        srcp = ctx.path("fault_in.c")
-        with open(srcp, "wb") as f:
-            f.write(u.src.encode("utf-8", "surrogateescape"))
-        outp = ctx.path("fault_out.qbe")
+        _, srcp, outp = fault_cmds(ctx, exe, u, 1)
         rc, _, _ = vlib.run(["sh", "-c", 'trap "" XFSZ; ulimit -f 100000; exec "$0" -t "$1" -o "$2" "$3"', exe, u.target, outp, srcp], timeout=30)
         if rc != 0 or open(outp, errors="surrogateescape").read() != u.il:
             raise vlib.MachineryError("fault harness control run failed (rc=%s)" % rc)
@@ -495,13 +593,34 @@ def fault_runs(ctx, builds, judge, units):
 
 
 # ----------------------------------------------------------------------------------------------
+def private_builds(ctx):
+    """the shared build cache keeps one entry per flavour and evicts on a new source hash: a concurrent check of a
+    scratch copy (VERIF_REPO=...) would delete the binary under our feet, so work on private copies"""
+    import shutil
+    out = []
+    for fl in ("plain", "hooks"):
+        for attempt in range(3):
+            try:
+                src = vlib.build(fl)
+                dst = ctx.path("bin-" + fl)
+                os.makedirs(dst, exist_ok=True)
+                shutil.copy2(os.path.join(src, "cproc-qbe"), os.path.join(dst, "cproc-qbe"))
+                break
+            except (OSError, vlib.MachineryError):
+                if attempt == 2:
+                    raise
+                time.sleep(2)
+        out.append(dst)
+    return tuple(out)
+
+
 def run(ctx):
     ctx.cov["rule"] = ("every IL printed with status 0 for: test/*.c x their targets, the stored .qbe files, cproc's 19 sources "
                        "(after cpp) x targets, WfGen.tla programs (TLC -simulate), Mutate.tla token mutants that still compile, "
                        "EmitModel behaviours; each judged by QbeWF.tla in TLC (one verdict per function and per module). "
                        "non-trivial = distinct (target, source) that exits 0 and defines at least one function or object")
     q = ctx.quick
-    builds = (vlib.build("plain"), vlib.build("hooks"))
+    builds = private_builds(ctx)
     selftest(ctx)
     judge = Judge(ctx)
     stored_qbe_audit(ctx, judge)
@@ -609,8 +728,8 @@ def audit_globs(ctx, globs):
 
 def generated_units(ctx, targets):
     q = ctx.quick
-    plan = [("MC_WfGen.cfg", "plain", 90 if q else 900), ("MC_WfGen_noret.cfg", "noret", 10 if q else 90),
-            ("MC_WfGen_undef.cfg", "undef", 8 if q else 60)]
+    plan = [("MC_WfGen.cfg", "plain", 55 if q else 120), ("MC_WfGen_noret.cfg", "noret", 8 if q else 15),
+            ("MC_WfGen_undef.cfg", "undef", 6 if q else 10)]
     units, globs, seen = [], {}, set()
     for cfg, cat, per_worker in plan:
         r = ctx.tlc_must_pass("WfGen", cfg, workers=4, simulate=per_worker, depth=500, timeout=900)
@@ -624,7 +743,9 @@ def generated_units(ctx, targets):
             src = gen_render(c, len(seen) % 4 == 0)
             meta = {"cat": cat, "undef": bool(c["undef"]), "steps": c["steps"], "nsw": c["nsw"], "ncase": c["ncase"],
                     "gen_known": {g["name"]: (g["size"], g["align"]) for g in c["globs"]}}
-            for t in targets:
+            # quick: x86_64 only; thorough: x86_64 and one of the two other targets in turn
+            ts = targets if len(targets) == 1 else [targets[0], targets[1 + len(seen) % (len(targets) - 1)]]
+            for t in ts:
                 units.append(Unit("gen:%s:%s@%s" % (cat, vlib.sha(v)[:12], t), "gen", src, t, meta))
     audit_globs(ctx, globs)
     # audit of the generator against gcc: a program is valid C unless it leaves a goto label undefined
@@ -658,7 +779,17 @@ def replay(ctx, path):
     if not src:
         print("case has no source:", json.dumps(case)[:2000])
         return 2
-    builds = (vlib.build("plain"), vlib.build("hooks"))
+    builds = private_builds(ctx)
+    if case.get("fault", "none") != "none":
+        u = Unit("replay", "replay", src, target)
+        runs, _, _ = fault_cmds(ctx, os.path.join(builds[0], "cproc-qbe"), u, case.get("full_output_bytes", 1 << 20))
+        bad = 0
+        for fault, cmd, arg in runs:
+            if fault == case["fault"] and arg == case.get("fault_arg"):
+                rc, _, err = vlib.run(cmd, timeout=30)
+                print("fault %s %s: exit status %s (required: not 0); stderr %r" % (fault, arg, rc, err[-200:]))
+                bad += rc == 0
+        return 1 if bad else 0
     u = Unit("replay", "replay", src, target)
     tr = ctx.path("tr")
     os.makedirs(tr, exist_ok=True)
@@ -670,6 +801,6 @@ def replay(ctx, path):
     print(u.il)
     judge = Judge(ctx)
     judge.add(u)
-    failed = judge.run(workers=4, heap="2g", tag="replay")
+    failed = judge.run(workers=4, heap="2g", tag="replay", guard=False)
     print("QbeWF failing obligations:", json.dumps(failed, indent=1))
     return 1 if (failed or ctx.violations) else 0
